@@ -393,18 +393,25 @@ def harnesses(tier: str) -> List[H]:
                          params, tiers=(tier,), timeout=3600,
                          family="3 contracted functions; each precondition makes up to two calls; all 4^6 graphs",
                          family_size=4 ** 6))
-        for fuel in (1, 2, 3):
-            params = [E("e0"), E("e2"), E("e4"), E("b0"), E("b1"), E("b2"), E("b3"), B("t1"), B("t2")]
+        for fuel in (1, 2):
+            for v in range(-1, N):
+                params = [E("e0"), E("e2"), E("e4"), E("b1"), E("b2"), E("b3"), B("t1"), B("t2")]
+                d = dict(base)
+                d["fuel"] = fuel
+                d["b0"] = v
+                out.append(H("graph_bodies_fuel%d_%s" % (fuel, "n" if v < 0 else v),
+                             bind(run_graph, (False,), ALL, d, [p.name for p in params]),
+                             params, tiers=(tier,), timeout=3600,
+                             family="conditions call one function each; bodies of f0/f1 call up to two (first callee of f0's "
+                                    "body: %d); fuel %d" % (v, fuel), family_size=4 ** 6))
+        for v in range(-1, N):
+            params = [I("top", 0, 2), I("fuel", 0, 1), E("e2"), E("p0"), E("p1"), E("c0"), E("c1"), E("b0")]
             d = dict(base)
-            d["fuel"] = fuel
-            out.append(H("graph_bodies_fuel%d" % fuel, bind(run_graph, (False,), ALL, d, [p.name for p in params]),
+            d["e0"] = v
+            out.append(H("graph_post_%s" % ("n" if v < 0 else v), bind(run_graph, (True,), ALL, d, [p.name for p in params]),
                          params, tiers=(tier,), timeout=3600,
-                         family="conditions call one function each; bodies of f0/f1 call up to two; fuel %d" % fuel,
-                         family_size=4 ** 7))
-        params = [I("top", 0, 2), I("fuel", 0, 2), E("e0"), E("e2"), E("e4"), E("p0"), E("p1"), E("c0"), E("c1"), E("c2"), E("b0")]
-        out.append(H("graph_post", bind(run_graph, (True,), ALL, dict(base), [p.name for p in params]), params,
-                     tiers=(tier,), timeout=3600, family="pre- and postconditions and bodies calling functions",
-                     family_size=4 ** 8 * 9))
+                         family="pre-/postconditions, snapshot captures and bodies calling functions (first callee of f0's "
+                                "precondition: %d)" % v, family_size=4 ** 6 * 6))
     # 2. objects
     OA = ["o", "k", "fuel", "i0", "i1", "c0", "c1", "c2", "c3"]
     if tier == "quick":
